@@ -8,20 +8,52 @@
 package stateful
 
 //@ ignorepkg github.com/tetratelabs/wazero
+//@ # closure_requires below: the per-node inner maps exist and no two nodes share one (they are only
+//@ # ever created by make inside these callbacks)
 //@ # load_<t>: a variable that holds a value is read back; only a variable that holds none is
 //@ # initialised (with the initial value the compiled code passes, which is also returned).
 //@ # The two callbacks handed to wazero are executed from an arbitrary state (pragma arg_closures).
 //@ func bindScalarI32[T i32Compatible](builder wazero.HostModuleBuilder, h *Host, store map[string]map[uint32]T, suffix string)
 //@   pragma arg_closures
 //@   overflow off
-//@   closure_requires h != nil && store != nil && (forall k string :: __in(store, k) ==> store[k] != nil)
+//@   closure_requires h != nil && store != nil && (forall k string :: __in(store, k) ==> store[k] != nil && __alloc(store[k])) && (forall k1 string, k2 string :: __in(store, k1) && __in(store, k2) && k1 != k2 ==> !__eq(store[k1], store[k2]))
 //@   assert_before "return uint32(value)" old(__in(store, h.currentNodeKey)) && old(__in(store[h.currentNodeKey], varID)) && value == old(store[h.currentNodeKey][varID])
 //@   assert_before "return initValue" !(old(__in(store, h.currentNodeKey)) && old(__in(store[h.currentNodeKey], varID))) && __in(store, h.currentNodeKey) && __in(store[h.currentNodeKey], varID) && store[h.currentNodeKey][varID] == T(initValue)
+//@   # initialising one variable leaves every other variable of every node alone
+//@   assert_before "return initValue" (forall k string, v uint32 :: (k != h.currentNodeKey || v != varID) && old(__in(store, k)) && old(__in(store[k], v)) ==> __in(store, k) && __in(store[k], v) && store[k][v] == old(store[k][v]))
+//@   # store_<t>: afterwards the variable holds the stored value, and only that variable changed
+//@   assert_after "inner[varID] = T(value)" __in(store, h.currentNodeKey) && __in(store[h.currentNodeKey], varID) && store[h.currentNodeKey][varID] == T(value)
+//@   assert_after "inner[varID] = T(value)" (forall k string, v uint32 :: (k != h.currentNodeKey || v != varID) && old(__in(store, k)) && old(__in(store[k], v)) ==> __in(store, k) && __in(store[k], v) && store[k][v] == old(store[k][v]))
 //@   modifies *
 //@ func bindScalarI64[T i64Compatible](builder wazero.HostModuleBuilder, h *Host, store map[string]map[uint32]T, suffix string)
 //@   pragma arg_closures
 //@   overflow off
-//@   closure_requires h != nil && store != nil && (forall k string :: __in(store, k) ==> store[k] != nil)
+//@   closure_requires h != nil && store != nil && (forall k string :: __in(store, k) ==> store[k] != nil && __alloc(store[k])) && (forall k1 string, k2 string :: __in(store, k1) && __in(store, k2) && k1 != k2 ==> !__eq(store[k1], store[k2]))
 //@   assert_before "return uint64(value)" old(__in(store, h.currentNodeKey)) && old(__in(store[h.currentNodeKey], varID)) && value == old(store[h.currentNodeKey][varID])
 //@   assert_before "return initValue" !(old(__in(store, h.currentNodeKey)) && old(__in(store[h.currentNodeKey], varID))) && __in(store, h.currentNodeKey) && __in(store[h.currentNodeKey], varID) && store[h.currentNodeKey][varID] == T(initValue)
+//@   # initialising one variable leaves every other variable of every node alone
+//@   assert_before "return initValue" (forall k string, v uint32 :: (k != h.currentNodeKey || v != varID) && old(__in(store, k)) && old(__in(store[k], v)) ==> __in(store, k) && __in(store[k], v) && store[k][v] == old(store[k][v]))
+//@   # store_<t>: afterwards the variable holds the stored value, and only that variable changed
+//@   assert_after "inner[varID] = T(value)" __in(store, h.currentNodeKey) && __in(store[h.currentNodeKey], varID) && store[h.currentNodeKey][varID] == T(value)
+//@   assert_after "inner[varID] = T(value)" (forall k string, v uint32 :: (k != h.currentNodeKey || v != varID) && old(__in(store, k)) && old(__in(store[k], v)) ==> __in(store, k) && __in(store[k], v) && store[k][v] == old(store[k][v]))
+//@   modifies *
+//@ func bindScalarF32(builder wazero.HostModuleBuilder, h *Host)
+//@   pragma arg_closures
+//@   overflow off
+//@   closure_requires h != nil && h.stateF32 != nil && (forall k string :: __in(h.stateF32, k) ==> h.stateF32[k] != nil && __alloc(h.stateF32[k])) && (forall k1 string, k2 string :: __in(h.stateF32, k1) && __in(h.stateF32, k2) && k1 != k2 ==> !__eq(h.stateF32[k1], h.stateF32[k2]))
+//@   assert_before "return value" old(__in(h.stateF32, h.currentNodeKey)) && old(__in(h.stateF32[h.currentNodeKey], varID)) && value == old(h.stateF32[h.currentNodeKey][varID])
+//@   assert_before "return initValue" !(old(__in(h.stateF32, h.currentNodeKey)) && old(__in(h.stateF32[h.currentNodeKey], varID))) && __in(h.stateF32, h.currentNodeKey) && __in(h.stateF32[h.currentNodeKey], varID) && h.stateF32[h.currentNodeKey][varID] == initValue
+//@   assert_before "return initValue" (forall k string, v uint32 :: (k != h.currentNodeKey || v != varID) && old(__in(h.stateF32, k)) && old(__in(h.stateF32[k], v)) ==> __in(h.stateF32, k) && __in(h.stateF32[k], v) && h.stateF32[k][v] == old(h.stateF32[k][v]))
+//@   assert_after "inner[varID] = value" __in(h.stateF32, h.currentNodeKey) && __in(h.stateF32[h.currentNodeKey], varID) && h.stateF32[h.currentNodeKey][varID] == value
+//@   assert_after "inner[varID] = value" (forall k string, v uint32 :: (k != h.currentNodeKey || v != varID) && old(__in(h.stateF32, k)) && old(__in(h.stateF32[k], v)) ==> __in(h.stateF32, k) && __in(h.stateF32[k], v) && h.stateF32[k][v] == old(h.stateF32[k][v]))
+//@   modifies *
+//@ func bindScalarF64(builder wazero.HostModuleBuilder, h *Host)
+//@   pragma arg_closures
+//@   overflow off
+//@   closure_requires h != nil && h.stateF64 != nil && (forall k string :: __in(h.stateF64, k) ==> h.stateF64[k] != nil && __alloc(h.stateF64[k])) && (forall k1 string, k2 string :: __in(h.stateF64, k1) && __in(h.stateF64, k2) && k1 != k2 ==> !__eq(h.stateF64[k1], h.stateF64[k2]))
+//@   assert_before "return value" old(__in(h.stateF64, h.currentNodeKey)) && old(__in(h.stateF64[h.currentNodeKey], varID)) && value == old(h.stateF64[h.currentNodeKey][varID])
+//@   assert_before "return initValue" !(old(__in(h.stateF64, h.currentNodeKey)) && old(__in(h.stateF64[h.currentNodeKey], varID))) && __in(h.stateF64, h.currentNodeKey) && __in(h.stateF64[h.currentNodeKey], varID) && h.stateF64[h.currentNodeKey][varID] == initValue
+//@   assert_before "return initValue" (forall k string, v uint32 :: (k != h.currentNodeKey || v != varID) && old(__in(h.stateF64, k)) && old(__in(h.stateF64[k], v)) ==> __in(h.stateF64, k) && __in(h.stateF64[k], v) && h.stateF64[k][v] == old(h.stateF64[k][v]))
+//@   assert_after "inner[varID] = value" __in(h.stateF64, h.currentNodeKey) && __in(h.stateF64[h.currentNodeKey], varID) && h.stateF64[h.currentNodeKey][varID] == value
+//@   assert_after "inner[varID] = value" (forall k string, v uint32 :: (k != h.currentNodeKey || v != varID) && old(__in(h.stateF64, k)) && old(__in(h.stateF64[k], v)) ==> __in(h.stateF64, k) && __in(h.stateF64[k], v) && h.stateF64[k][v] == old(h.stateF64[k][v]))
 //@   modifies *
